@@ -286,7 +286,7 @@ class Serializable(eqx.Module):
         if not path.parent.exists():
             path.parent.mkdir(parents=True, exist_ok=True)
         if path.suffix != ".eqx" and not no_suffix:
-            path = path.with_suffix(".eqx")
+            path = path.with_name(path.name + ".eqx")
 
         eqx.tree_serialise_leaves(path, self)
 
@@ -310,8 +310,8 @@ class Serializable(eqx.Module):
             The deserialized model.
         """
         path = Path(path)
-        if path.suffix == "":
-            path = path.with_suffix(".eqx")
+        if path.suffix != ".eqx" and not path.exists():
+            path = path.with_name(path.name + ".eqx")
         like = eqx.filter_eval_shape(cls, *args, **kwargs)
         with open(path, "rb") as file:
             model = eqx.tree_deserialise_leaves(file, like)
